@@ -26,8 +26,18 @@ type RT struct {
 }
 
 func checkRT(ctx *pbt.Ctx, c RT) error {
-	in := bscript.BIP276{Prefix: c.Prefix, Version: c.Version, Network: c.Network, Data: c.Data}
+	// the payload slice owns spare capacity with a recognisable pattern (ref.Canary): an encoder that
+	// appends to the caller's slice writes there without changing the slice the caller holds
+	arg := ref.Canary(c.Data)
+	in := bscript.BIP276{Prefix: c.Prefix, Version: c.Version, Network: c.Network, Data: arg}
 	text := bscript.EncodeBIP276(in)
+	if ref.CanaryDamaged(arg) {
+		return fmt.Errorf("EncodeBIP276(%+v) wrote into the spare capacity behind the payload slice it was given", c)
+	}
+	if !bytes.Equal(arg, c.Data) {
+		return fmt.Errorf("EncodeBIP276(%+v) changed the payload slice it was given to %x", c, arg)
+	}
+	in.Data = c.Data
 	if c.Version != c.Network || len(c.Data) == 0 || c.Version >= 10 || (c.Prefix != bscript.PrefixScript) {
 		ctx.NonTrivial()
 	}
